@@ -736,8 +736,9 @@ def campaign(build, tier, seed, report, budget=1):
     cov["branch_tags"] = dict(sorted(tags.items()))
     cov["spec_vs_numpy_disagreements"] = spec_vs_numpy
     cov["unproved_statements"] = [
-        "gcxs_stack_den: GCXS.reshape's kernel (_transpose onto the shape with a 1 inserted) is modelled by its "
-        "meaning (coo_expand of tocoo, then from_coo); the kernel itself is compared by correspondence only",
+        "gcxs_stack_den states the member preparation by its meaning (coo_expand of tocoo, then from_coo); "
+        "gcxs_stack_member_is_reshape proves that C08's transcription of GCXS.reshape + change_compressed_axes returns "
+        "exactly that record, but the two are separate theorems (gcxs_stack itself does not call gcxs_reshape)",
         "take with axis=None on the real getitem path (x.flatten()[indices]): correspondence only "
         "(take_*_getitem_den cover every integer axis)",
         "triu / tril / diagonal / diagonalize for GCXS or DOK inputs: the theorems are about the COO the input is "
